@@ -440,7 +440,7 @@ def run(spec, mon):
                                                   "".join("%s\n" % f["file"] for f in case["program"]["features"])))
                 extra_args = ["@features/all.txt"]
                 mon.seen("features_named_by_list_file", listfile)
-            res = proj.run(case["args"] + extra_args + ["-f", "plain"])
+            res = proj.run(case["args"] + extra_args + ["-f", "plain"], environment=RB.pick_environment(rng, mon))
         finally:
             proj.close()
         c2 = dict(case, hook_fault=plan.get("hook_fault"), file_filter=file_filter, features_named_by_list_file=listfile)
